@@ -295,6 +295,23 @@ Theorem C08_slice_indices : forall n lo hi i,
 Proof. exact pyslice_In. Qed.
 Print Assumptions C08_slice_indices.
 
+(* --- the hex classes' unconditional wrap _HexGrid.torus_adj_2d and the public torus_adj: always inside the grid,
+       equal to torus_adj wherever torus_adj accepts, identity inside the grid, idempotent; and it IS the function
+       regenerated from the source *)
+Theorem C08_hex_torus_adj_2d : forall c p,
+  wf c ->
+  out_of_bounds c (torus_adj_2d c p) = false /\
+  (c_torus c = true -> torus_adj c p = Some (torus_adj_2d c p)) /\
+  (out_of_bounds c p = false -> torus_adj_2d c p = p /\ torus_adj c p = Some p) /\
+  torus_adj_2d c (torus_adj_2d c p) = torus_adj_2d c p /\
+  (forall q, torus_adj c p = Some q -> torus_adj_2d c p = q).
+Proof. exact hex_torus_adj_2d. Qed.
+Print Assumptions C08_hex_torus_adj_2d.
+
+Theorem C08_hex_torus_adj_2d_of_source : forall c p, torus_adj_2d c p = gen_torus_adj_2d (c_w c) (c_h c) p.
+Proof. exact torus_adj_2d_bridge. Qed.
+Print Assumptions C08_hex_torus_adj_2d_of_source.
+
 (* --- NetworkGrid: the same invariant on graph nodes, after every history *)
 Theorem C08_net_agree : forall nodes ops, NAgree nodes (nrun nodes ninit ops).
 Proof. exact net_agree_history. Qed.
@@ -530,3 +547,10 @@ Example C08_example_round3 :
   snd (nstep [3; 0; 7] t (NMove 2 11)) = Err E_KEY /\ npos (fst (nstep [3; 0; 7] t (NMove 2 11))) 2 = Some 0 /\
   snd (nstep [3; 0; 7] t (NPlace 3 9)) = Err E_KEY.
 Proof. vm_compute. repeat split; try congruence. repeat constructor; cbn; intuition congruence. Qed.
+
+(* round 4: torus_adj / torus_adj_2d as observed calls *)
+Example C08_example_round4 :
+  view_form ex_cfg_m init (FAdj (5, 7)) = Err E_OOB /\ view_form ex_cfg_s init (FAdj (5, 7)) = Ok [2; 1] /\
+  view_form ex_cfg_m init (FAdj2d (5, 7)) = Ok [2; 1] /\ view_form ex_cfg_m init (FAdj2d (-1, -1)) = Ok [2; 1] /\
+  gen_torus_adj_2d 3 2 (-1, -1) = (2, 1).
+Proof. vm_compute. repeat split; congruence. Qed.
